@@ -56,3 +56,11 @@ SUITES["C06"] = {"quick": [{"family": "wire", "mode": "malformed", "share": 1}],
 PROP_INFO["C05"] = {"level": "exploration", "rule": "valid messages of every type (KEEPALIVE, ROUTE-REFRESH, withdraw, IPv6 MP_REACH announce, IPv4 announce with a rich attribute set, OPEN) under the options negotiated on the session (ADD-PATH, 2-octet AS, extended message) are damaged in flight (bit flips, byte insertion/deletion, truncation, header length and attribute length rewrites, random bodies and types, oversized claims, cut mid-message) and delivered fragmented; an API client lists and renders (String/JSON/Serialize) every stored path. Oracle: no panic, no hang, and after any damage that does not end the session the next valid UPDATE is parsed in frame. NON-TRIVIAL: at least one damaged message was delivered; DISTINCT by (schedule signature, event-log hash).", "probes": ["survived_mutation", "reset_by_mutation"], "budget": {"quick": 60, "thorough": 900}}
 SUITES["C05"] = {"quick": [{"family": "wire", "mode": "fuzz", "share": 1}], "thorough": [{"family": "wire", "mode": "fuzz", "share": 1}]}
 ALL_FAMILIES += [("wire", "malformed"), ("wire", "fuzz")]
+GR_RULE = ("one GR-capable neighbour (GR on/off, restart time 10..120 s, N bit, capability listing v4 / v6 / both, optionally LLGR) announcing routes over one or two families, two observers; "
+           "loss kinds {transport reset, close, hold-timer expiry (neighbour goes silent), NOTIFICATION, Hard Reset, administrative shutdown, disable, delete peer}; then either no reconnection "
+           "(probes 200 ms before and after the restart / LLGR deadlines) or reconnection inside the window with or without the R bit, a possibly different capability, partial re-announcement, "
+           "End-of-RIB per family in drawn order, optionally a second loss inside the window. NON-TRIVIAL: at least one probe compared a non-empty route set after a session loss; DISTINCT by "
+           "(schedule signature, event-log hash).")
+PROP_INFO["C12"] = {"level": "exploration", "rule": GR_RULE, "probes": ["loss_graceful_reset", "loss_graceful_close", "loss_graceful_holdexp", "loss_graceful_notif", "loss_nongraceful_reset", "loss_nongraceful_notif", "loss_nongraceful_hardreset", "loss_nongraceful_shutdown"], "budget": {"quick": 60, "thorough": 1200}}
+SUITES["C12"] = {"quick": [{"family": "gr", "mode": "", "share": 2}, {"family": "gr", "mode": "llgr", "share": 1}], "thorough": [{"family": "gr", "mode": "", "share": 2}, {"family": "gr", "mode": "llgr", "share": 1}]}
+ALL_FAMILIES += [("gr", ""), ("gr", "llgr")]
